@@ -2,6 +2,7 @@
 # integrate.sh <WS> [fix-commit...] : merge a builder's clone into /verif, cherry-pick its fix commits into /repo
 ws=$1; shift
 cd /verif
+git add -A; git commit -qm "wip before integrating $ws" 2>/dev/null
 git pull --no-edit /tmp/w/$ws/verif main >/tmp/integrate_$ws.log 2>&1
 for f in $(git diff --name-only --diff-filter=U); do
   case "$f" in
